@@ -377,7 +377,7 @@ theorem recover_QW (d : Disk) (h : DiskOk d) (o : Opts) (d' : Disk) (s : State) 
 
 /-- `Open` as a segment: every prefix is a good disk, and the relation holds at the end -/
 theorem reopen_seg (d : Disk) (h : DiskOk d) (o : Opts) (d' : Disk) (s : State) (hr : recover d o = .ok (d', s))
-    (junks : List Layer := []) :
+    (junks : List (Nat × Layer) := []) :
     Seg (Good3 d) (fun x => x = d) (recoverEvents d junks) (fun x => QW x (openedVol s) [] [] [] false) := by
   intro x hx
   subst hx
@@ -390,20 +390,20 @@ theorem reopen_seg (d : Disk) (h : DiskOk d) (o : Opts) (d' : Disk) (s : State) 
 theorem flushStep_not_pending (s : State) (h : s.flushPending = false) : flushStep s = s := by
   unfold flushStep; simp [h]
 
-theorem flushEvs_s (v : Vol) {junks : List Layer} : (flushEvs v junks).2.s = flushStep v.s := by
+theorem flushEvs_s (v : Vol) : (flushEvs v).2.s = flushStep v.s := by
   unfold flushEvs
   split
   · rename_i h
     rw [flushStep_not_pending v.s (by simpa using h)]
   · split <;> rfl
 
-theorem flushEvs_queue (v : Vol) {junks : List Layer} : (flushEvs v junks).2.queue = v.queue := by
+theorem flushEvs_queue (v : Vol) : (flushEvs v).2.queue = v.queue := by
   unfold flushEvs
   split
   · rfl
   · split <;> rfl
 
-theorem flushEvs_cur (v : Vol) {junks : List Layer} : (flushEvs v junks).2.walCur = v.walCur := by
+theorem flushEvs_cur (v : Vol) : (flushEvs v).2.walCur = v.walCur := by
   unfold flushEvs
   split
   · rfl
@@ -437,11 +437,11 @@ theorem vis_or_junk (a b j c : Option GoBytes) (hj : j ≠ none → b ≠ none) 
 /-- `executeFlush`, at every call boundary: directory created, files written, metadata written (now the table
 counts — it holds exactly what the handed-over WAL file holds), WAL file removed (which therefore changes nothing) -/
 theorem flush_seg (d : Disk) (v : Vol) (junk : List WalFile) (ro rc : List Mutation) (tn : Bool)
-    (h : QW d v junk ro rc tn) (junks : List Layer := []) :
-    ∃ junk', Seg (Good3 d) (fun x => x = d) (flushEvs v junks).1 (fun x => QW x (flushEvs v junks).2 junk' ro rc tn) := by
+    (h : QW d v junk ro rc tn) :
+    ∃ junk', Seg (Good3 d) (fun x => x = d) (flushEvs v).1 (fun x => QW x (flushEvs v).2 junk' ro rc tn) := by
   cases hp : v.s.flushPending with
   | false =>
-    have he : flushEvs v junks = ([], v) := by unfold flushEvs; simp [hp]
+    have he : flushEvs v = ([], v) := by unfold flushEvs; simp [hp]
     rw [he]
     refine ⟨junk, Seg.nil ?_⟩
     intro x hx; subst hx
@@ -458,7 +458,7 @@ theorem flush_seg (d : Disk) (v : Vol) (junk : List WalFile) (ro rc : List Mutat
     cases hr : v.s.r with
     | nil =>
       -- skipped flush: the (record-less) WAL file stays behind
-      have he : flushEvs v junks = ([], { v with s := flushStep v.s, walOld := none }) := by
+      have he : flushEvs v = ([], { v with s := flushStep v.s, walOld := none }) := by
         unfold flushEvs; simp [hp, hr]
       have hfs : flushStep v.s = { v.s with flushPending := false } := by
         unfold flushStep; simp [hp, hr]
@@ -499,8 +499,8 @@ theorem flush_seg (d : Disk) (v : Vol) (junk : List WalFile) (ro rc : List Mutat
           rw [hu'] at this; cases this }
     | cons p0 r0 =>
       have hrne : v.s.r ≠ [] := by rw [hr]; simp
-      have he : flushEvs v junks = ([.tblMkdir (v.s.gen + 1), .tblProgress (v.s.gen + 1)] ++ junkEvs (v.s.gen + 1) v.s.r junks ++
-          [.tblComplete (v.s.gen + 1) v.s.r] ++ [.walUnlink on], { v with s := flushStep v.s, walOld := none }) := by
+      have he : flushEvs v = ([.tblMkdir (v.s.gen + 1), .tblLoadable (v.s.gen + 1) [], .tblMetaCreate (v.s.gen + 1),
+          .tblProgress (v.s.gen + 1), .tblComplete (v.s.gen + 1) v.s.r] ++ [.walUnlink on], { v with s := flushStep v.s, walOld := none }) := by
         unfold flushEvs; simp [hp, hr, hon]
       have hfs : flushStep v.s =
           { v.s with flushPending := false, gen := v.s.gen + 1, tables := v.s.tables ++ [{ gen := v.s.gen + 1, cells := v.s.r }] } := by
@@ -631,62 +631,46 @@ theorem flush_seg (d : Disk) (v : Vol) (junk : List WalFile) (ro rc : List Mutat
           simp only [walMuts, List.flatMap_cons, List.flatMap_nil, fileMuts, if_true, List.append_nil]
           rw [tblsOf_append, tblsOf_encT, tblsOf_cons_complete, tblsOf_nil, tablesGet_append, tablesGet_single, base]
       have hu' : usable (flushStep v.s) = true := by rw [hfs]; exact hu
-      -- the unfinished table: not loadable yet, or loadable and showing keys of the flushed store only
-      let PJ : Disk → Prop := fun x => ∃ t : TableDir,
-        (t = .part false ∨ ∃ J, t = .complete J ∧ ∀ k, Layer.get J k ≠ none → Layer.get v.s.r k ≠ none) ∧
-        x = { d with tables := encT v.s.tables ++ [(v.s.gen + 1, t)] }
-      have hgoodT : ∀ x, PJ x → Good3 d x := by
-        intro x ⟨t, ht, hx⟩
-        rcases ht with (rfl | ⟨J, rfl, hJ⟩)
-        · exact hx ▸ hgoodPart
-        · exact hx ▸ hgoodLoad J hJ
-      have hupd : ∀ (t : TableDir) (c : Layer),
-          updT (v.s.gen + 1) (fun _ => TableDir.complete c) (encT v.s.tables ++ [(v.s.gen + 1, t)]) =
-            encT v.s.tables ++ [(v.s.gen + 1, .complete c)] := by
-        intro t c
+      have hupd : ∀ (t t' : TableDir),
+          updT (v.s.gen + 1) (fun _ => t') (encT v.s.tables ++ [(v.s.gen + 1, t)]) =
+            encT v.s.tables ++ [(v.s.gen + 1, t')] := by
+        intro t t'
         rw [updT_append, updT_id_of_absent _ _ _ habs]
         simp [updT]
-      have s12 : Seg (Good3 d) (fun x => x = d) [Ev.tblMkdir (v.s.gen + 1), Ev.tblProgress (v.s.gen + 1)] PJ := by
+      have hgoodEmpty := hgoodLoad [] (fun k hk => absurd (layerGet_nil k) hk)
+      have s5 : Seg (Good3 d) (fun x => x = d)
+          [Ev.tblMkdir (v.s.gen + 1), Ev.tblLoadable (v.s.gen + 1) [], Ev.tblMetaCreate (v.s.gen + 1),
+            Ev.tblProgress (v.s.gen + 1), Ev.tblComplete (v.s.gen + 1) v.s.r]
+          (fun x => x = { d with tables := encT v.s.tables ++ [(v.s.gen + 1, .complete v.s.r)] }) := by
         refine Seg.cons (Q := fun x => x = { d with tables := encT v.s.tables ++ [(v.s.gen + 1, .part false)] }) ?_
-          (Seg.cons (Q := PJ) ?_ (Seg.nil ?_))
+          (Seg.cons (Q := fun x => x = { d with tables := encT v.s.tables ++ [(v.s.gen + 1, .complete [])] }) ?_
+            (Seg.cons (Q := fun x => x = { d with tables := encT v.s.tables ++ [(v.s.gen + 1, .part false)] }) ?_
+              (Seg.cons (Q := fun x => x = { d with tables := encT v.s.tables ++ [(v.s.gen + 1, .part false)] }) ?_
+                (Seg.cons (Q := fun x => x = { d with tables := encT v.s.tables ++ [(v.s.gen + 1, .complete v.s.r)] }) ?_ (Seg.nil ?_)))))
         · intro x hx; subst hx
           refine ⟨⟨h.diskOk, rfl⟩, ?_⟩
           simp only [applyEv]
           rw [h.tables, insertT_last _ _ _ hlt]
         · intro x hx
-          exact ⟨hx ▸ hgoodPart, ⟨.part false, Or.inl rfl, by subst hx; rfl⟩⟩
-        · intro x hx
-          exact ⟨hgoodT x hx, hx⟩
-      have sJ : ∀ js : List Layer, Seg (Good3 d) PJ (junkEvs (v.s.gen + 1) v.s.r js) PJ := by
-        intro js
-        unfold junkEvs
-        induction js with
-        | nil =>
-          apply Seg.nil
-          intro x hx
-          exact ⟨hgoodT x hx, hx⟩
-        | cons j js ih =>
-          rw [List.map_cons]
-          refine Seg.cons (Q := PJ) ?_ ih
-          intro x hx
-          refine ⟨hgoodT x hx, ?_⟩
-          obtain ⟨t, _, hx⟩ := hx
-          refine ⟨.complete (restrictTo v.s.r j), Or.inr ⟨_, rfl, restrict_get _ j⟩, ?_⟩
+          refine ⟨hx ▸ hgoodPart, ?_⟩
           subst hx
           simp only [applyEv]
           rw [hupd]
-      have sC : Seg (Good3 d) PJ [Ev.tblComplete (v.s.gen + 1) v.s.r]
-          (fun x => x = { d with tables := encT v.s.tables ++ [(v.s.gen + 1, .complete v.s.r)] }) := by
-        refine Seg.cons (Q := fun x => x = { d with tables := encT v.s.tables ++ [(v.s.gen + 1, .complete v.s.r)] }) ?_ (Seg.nil ?_)
         · intro x hx
-          refine ⟨hgoodT x hx, ?_⟩
-          obtain ⟨t, _, hx⟩ := hx
+          refine ⟨hx ▸ hgoodEmpty, ?_⟩
+          subst hx
+          simp only [applyEv]
+          rw [hupd]
+        · intro x hx
+          exact ⟨hx ▸ hgoodPart, by subst hx; rfl⟩
+        · intro x hx
+          refine ⟨hx ▸ hgoodPart, ?_⟩
           subst hx
           simp only [applyEv]
           rw [hupd]
         · intro x hx
           exact ⟨hx ▸ hgoodComplete, hx⟩
-      refine Seg.append (Seg.append (Seg.append s12 (sJ junks)) sC) ?_
+      refine Seg.append s5 ?_
       refine (Seg.cons (Q := fun x => x = { d with tables := encT v.s.tables ++ [(v.s.gen + 1, .complete v.s.r)], wal := junk ++ [{ num := v.walCur, recs := rc, torn := tn }] }) ?_ (Seg.nil ?_))
       · intro x hx
         refine ⟨hx ▸ hgoodComplete, ?_⟩
